@@ -60,7 +60,7 @@ def _cos_law(a, b, c):
     return (tz(a) * tz(a) + tz(b) * tz(b) - tz(c) * tz(c)) / (2 * tz(a) * tz(b))
 
 
-def baker_hubbard(n_frames: int = 2, n_trip: int = 1, freq: float = 0.4, distance_cutoff: float = 0.25, angle_cutoff: float = 120.0):
+def baker_hubbard(n_frames: int = 2, n_trip: int = 1, freq: float = 0.4, distance_cutoff: float = 0.25, angle_cutoff: float = 120.0, periodic: bool = True):
     t0 = time.time()
     trip, D, prem = _setup(n_frames, n_trip)
     S.CTX.acos_breakpoints = [math.radians(angle_cutoff)]
@@ -68,8 +68,9 @@ def baker_hubbard(n_frames: int = 2, n_trip: int = 1, freq: float = 0.4, distanc
     _hb.np = NP()
     _hb.compute_distances = _dist_source(D)
     _hb._get_bond_triplets = lambda top, exclude_water=True, sidechain_only=False: trip.copy()
-    paths = S.explore(lambda: _hb.baker_hubbard(_Traj(), freq=freq, distance_cutoff=distance_cutoff, angle_cutoff=angle_cutoff, periodic=True))
+    paths = S.explore(lambda: _hb.baker_hubbard(_Traj(), freq=freq, distance_cutoff=distance_cutoff, angle_cutoff=angle_cutoff, periodic=periodic))
     G = Goals(30000)
+    _periodic_goal(G, D, periodic, "baker_hubbard")
     margin = S.rat(1e-4)
     cosc = S.rat(math.cos(math.radians(angle_cutoff)))
     inputs = {f"{k}_f{f}": v[f] for k, v in D["d"].items() for f in range(n_frames)}
@@ -94,7 +95,53 @@ def baker_hubbard(n_frames: int = 2, n_trip: int = 1, freq: float = 0.4, distanc
     return r
 
 
+def _periodic_goal(G, D, periodic, fn):
+    """every side of every D-H...A triangle is measured under the caller's periodic flag (mixing conventions gives a wrong triangle)"""
+    flags = sorted({bool(p) for _, p in D["calls"]})
+    G.add("periodic_flag_forwarded", [], z3.BoolVal(flags == [bool(periodic)] and len(D["calls"]) >= 1), {"periodic": Sym(S.rat(1 if periodic else 0))})
+
+
+_PERIODIC_REPLAY = '''
+import sys, numpy as np, mdtraj as md
+from mdtraj.core import element as el
+top = md.Topology(); ch = top.add_chain(); r1 = top.add_residue("ALA", ch); r2 = top.add_residue("GLY", ch)
+n = top.add_atom("N", el.nitrogen, r1); h = top.add_atom("H", el.hydrogen, r1); o = top.add_atom("O", el.oxygen, r2)
+top.add_bond(n, h)
+L = 2.0
+if "{fn}".endswith("hubbard"):
+    # the donor sits across the cell boundary from H and O: plain distances N-H = 1.9, N-O = 1.71; minimum images 0.1 and 0.29
+    xyz = np.array([[[1.95, 1.0, 1.0], [0.05, 1.0, 1.0], [0.24, 1.0, 1.0]]], dtype=np.float32); want = (1, 0)
+else:
+    # Wernet-Nilsson looks at d(D,A) and the angle at the donor: plain geometry puts H 1.9 nm away but almost ON the D->A line (1.5 deg: bond),
+    # the minimum image puts it behind the donor (148 deg: no bond)
+    xyz = np.array([[[0.05, 1.0, 1.0], [1.97, 1.05, 1.0], [0.30, 1.0, 1.0]]], dtype=np.float32); want = (0, 1)
+t = md.Trajectory(xyz, top, unitcell_lengths=[[L, L, L]], unitcell_angles=[[90, 90, 90]])
+per = {fn}(t, periodic=True); non = {fn}(t, periodic=False)
+per = per if "{fn}".endswith("hubbard") else per[0]; non = non if "{fn}".endswith("hubbard") else non[0]
+print("periodic=True:", np.asarray(per).tolist(), " periodic=False:", np.asarray(non).tolist(), " expected counts", want)
+sys.exit(1 if (len(per), len(non)) != want else 0)
+'''
+
+
+def _replay_periodic(fn):
+    def rep(name, vals):
+        import subprocess, sys as _s, tempfile, os
+        script = _PERIODIC_REPLAY.format(fn="md." + fn)
+        with tempfile.NamedTemporaryFile("w", suffix=".py", delete=False) as fh:
+            fh.write(script)
+        r = subprocess.run([_s.executable, fh.name], capture_output=True, text=True)
+        os.unlink(fh.name)
+        return r.returncode == 1, script + "\n# " + (r.stdout + r.stderr)[-300:].replace("\n", "\n# "), name.split("[")[0]
+    return rep
+
+
 def _replay_bh(trip, n_frames, freq, dc, ac):
+    bh = _replay_bh_values(trip, n_frames, freq, dc, ac)
+    per = _replay_periodic("baker_hubbard")
+    return lambda name, vals: per(name, vals) if name.startswith("periodic_flag") else bh(name, vals)
+
+
+def _replay_bh_values(trip, n_frames, freq, dc, ac):
     def rep(name, vals):
         """rebuild coordinates realising the three distances per frame and call the real md.baker_hubbard"""
         script = f'''
@@ -139,15 +186,64 @@ sys.exit(1 if got != want else 0)
     return rep
 
 
-def wernet_nilsson(n_frames: int = 2, n_trip: int = 1):
+def _replay_wn(trip, n_frames):
+    per = _replay_periodic("wernet_nilsson")
+
+    def rep(name, vals):
+        if name.startswith("periodic_flag"):
+            return per(name, vals)
+        script = f'''
+import sys, math, numpy as np, mdtraj as md, warnings
+warnings.simplefilter("ignore")
+vals = {vals!r}; trip = {trip.tolist()!r}; n_frames = {n_frames}
+top = md.Topology(); ch = top.add_chain()
+na = max(max(t) for t in trip) + 1
+els = {{}}
+for d, h, a in trip: els[d] = md.element.nitrogen; els[h] = md.element.hydrogen; els[a] = md.element.oxygen
+atoms = []
+for i in range(na):
+    r = top.add_residue("ALA", ch); atoms.append(top.add_atom("X%d" % i, els.get(i, md.element.carbon), r))
+for d, h, a in trip: top.add_bond(atoms[d], atoms[h])
+xyz = np.zeros((n_frames, na, 3), dtype=np.float32)
+def g(i, j, f): return vals["(%d, %d)_f%d" % (min(i, j), max(i, j), f)]
+d, h, a = trip[0]
+for f in range(n_frames):
+    dh, ha, da = g(d, h, f), g(h, a, f), g(d, a, f)
+    xyz[f, h] = 0; xyz[f, d] = [dh, 0, 0]
+    c = (dh * dh + ha * ha - da * da) / (2 * dh * ha); c = max(-1, min(1, c))
+    xyz[f, a] = [ha * c, ha * math.sqrt(1 - c * c), 0]
+    for o in range(na):
+        if o not in (d, h, a): xyz[f, o] = [50.0 + 5 * o, 0, 0]
+t = md.Trajectory(xyz, top)
+got = [set(map(tuple, np.asarray(x).tolist())) for x in md.wernet_nilsson(t, periodic=False)]
+bad = 0
+for f in range(n_frames):
+    dh, ha, da = g(d, h, f), g(h, a, f), g(d, a, f)
+    ang = math.degrees(math.acos(max(-1, min(1, (da * da + dh * dh - ha * ha) / (2 * da * dh)))))      # angle at the donor between D-A and D-H
+    want = da < 0.33 - 0.000044 * ang * ang
+    print("frame", f, "r_DA", da, "delta", ang, "criterion", want, "reported", (d, h, a) in got[f])
+    bad += want != ((d, h, a) in got[f])
+sys.exit(1 if bad else 0)
+'''
+        import subprocess, sys as _s, tempfile, os
+        with tempfile.NamedTemporaryFile("w", suffix=".py", delete=False) as fh:
+            fh.write(script)
+        r = subprocess.run([_s.executable, fh.name], capture_output=True, text=True)
+        os.unlink(fh.name)
+        return r.returncode == 1, script + "\n# " + (r.stdout + r.stderr)[-400:].replace("\n", "\n# "), name.split("[")[0]
+    return rep
+
+
+def wernet_nilsson(n_frames: int = 2, n_trip: int = 1, periodic: bool = True):
     t0 = time.time()
     trip, D, prem = _setup(n_frames, n_trip)
     S.CTX.cons += prem
     _hb.np = NP()
     _hb.compute_distances = _dist_source(D)
     _hb._get_bond_triplets = lambda top, exclude_water=True, sidechain_only=False: trip.copy()
-    paths = S.explore(lambda: (_hb.wernet_nilsson(_Traj(), periodic=True), dict(S.CTX.fn_args), dict(S.CTX.cache)))
+    paths = S.explore(lambda: (_hb.wernet_nilsson(_Traj(), periodic=periodic), dict(S.CTX.fn_args), dict(S.CTX.cache)))
     G = Goals(30000)
+    _periodic_goal(G, D, periodic, "wernet_nilsson")
     margin = S.rat(1e-5)
     inputs = {f"{k}_f{f}": v[f] for k, v in D["d"].items() for f in range(n_frames)}
     for i, (path, cons, assumed, (res, fnargs, cache)) in enumerate(paths):
@@ -180,7 +276,7 @@ def wernet_nilsson(n_frames: int = 2, n_trip: int = 1):
                 bound = S.rat(0.33) - S.rat(0.000044) * deg * deg
                 robust = z3.Or(tz(da) < bound - margin, tz(da) > bound + margin)
                 G.add(f"wn_set[{i}.f{f}.{d}-{h}-{a}]", base + [robust], (tz(da) < bound) if is_rep else z3.Not(tz(da) < bound), inputs)
-    r = G.run(None)
+    r = G.run(_replay_wn(trip, n_frames))
     r["paths"] = len(paths)
     r["wall_s"] = round(time.time() - t0, 2)
     return r
